@@ -129,6 +129,28 @@ def LRC.close (l : LRC) : LRC × Option CErr :=
       | _, _ => l
     ({ l with closed := true }, l.err)
 
+/-- one call on a LimitedReadCloser used on its own -/
+inductive Step where
+  | read (k : Nat)
+  | close
+deriving DecidableEq, Repr
+
+/-- what the call returned -/
+inductive StepRes where
+  | rd (bs : List Nat) (e : Option RErr)
+  | cl (e : Option CErr)
+deriving Repr
+
+/-- a sequence of Read / Close calls on the (repaired) LimitedReadCloser -/
+def LRC.runSteps (l : LRC) : List Step → LRC × List StepRes
+  | [] => (l, [])
+  | .read k :: ss =>
+    match l.read k with
+    | (l', bs, e) => let (lf, rs) := LRC.runSteps l' ss; (lf, .rd bs e :: rs)
+  | .close :: ss =>
+    match l.close with
+    | (l', e) => let (lf, rs) := LRC.runSteps l' ss; (lf, .cl e :: rs)
+
 /-- what `points.BatchReadCloser` returns: the source itself (limit ≤ 0) or
     a LimitedReadCloser around it -/
 inductive Body where
